@@ -36,7 +36,7 @@ func gen(t *rapid.T) sw.Scenario {
 		if i == burstAt {
 			// a long backlog (more pending blocks than any batch or page size one might think of)
 			st := pw.GoodStep(sw.GenTxs(t)...)
-			sc.Ops = append(sc.Ops, sw.Op{Kind: "produce-burst", N: rapid.SampledFrom([]int{70, 130, world.Scale(130, 300), world.Scale(130, 700)}).Draw(t, "burstn"), Step: &st})
+			sc.Ops = append(sc.Ops, sw.Op{Kind: "produce-burst", N: rapid.SampledFrom([]int{70, 130, world.Scale(130, 300), world.Scale(130, 300)}).Draw(t, "burstn"), Step: &st})
 			continue
 		}
 		switch k := rapid.IntRange(0, 19).Draw(t, "op"); {
